@@ -40,6 +40,15 @@ impl Parser {
     }
 }
 
+/// verification hook, compiled only with `--cfg gosyn_verif`
+#[cfg(gosyn_verif)]
+impl Parser {
+    /// (expr_level, depth, number of pending lead comments): the state an entry point leaves behind
+    pub fn verif_state(&self) -> (i32, usize, usize) {
+        (self.expr_level, self.depth, self.lead_comments.len())
+    }
+}
+
 impl Parser {
     const MAX_DEPTH: i32 = 64;
 
